@@ -2,9 +2,12 @@
    Proved per micro-operation for the integer-carrier arithmetics: the transfer value is the prescribed
    truncated quotient (two truncations; Scottish: one), never above the old value, never rounded up;
    transfer() moves a ballot to the first continuing candidate of its ranking at unchanged weight and
-   credits exactly its value.  Whole-count lifting: ballots-scope correspondence + oracle (P1, P3, P4): _partial. *)
+   credits exactly its value.  WHOLE RUNS (wigm, wigm-prf, wigm-prf-batch, scotland): every tally is the value of the ballots
+   standing with the candidate in every reachable state (C06_tally_is_the_value_of_its_ballots_whole_run).  cfer, mpls:
+   ballots-scope correspondence + oracle (P1, P3, P4): _partial. *)
 From Coq Require Import ZArith List Bool String.
-From Droop Require Import Model.KernelBase Model.Arith Model.State Model.Prims Proofs.Zlike Proofs.Gregory.
+From Droop Require Import Model.KernelBase Model.Arith Model.State Model.Prims Proofs.Zlike Proofs.Gregory
+  Model.Prelude Model.Election Proofs.Conserve Proofs.ConserveCount.
 Import ListNotations.
 Open Scope Z_scope.
 
@@ -53,3 +56,21 @@ Theorem C06_exclusion_moves_ballots_at_unchanged_value_partial : forall A S (ZL 
   map (fun c => (cid c, cst c, cpend c)) (cands (fst r)) = map (fun c => (cid c, cst c, cpend c)) (cands s).
 Proof. exact transfer_conserves. Qed.
 Print Assumptions C06_exclusion_moves_ballots_at_unchanged_value_partial.
+
+(* ---- whole runs (wigm, wigm-prf, wigm-prf-batch, scotland; Fixed, integer, Guarded with guard 0) ----
+   In every state a count reaches without crashing: candidate ids are distinct, every ballot has a non-negative weight and
+   an integral non-negative multiplier, every candidate's tally IS the value of the ballots standing with it -- except
+   candidates that are neither hopeful nor transfer-pending and hold no ballot any more (elected, surplus transferred) --
+   and a transfer-pending candidate holds at least the quota.  [stand bs i] = sum of the values of the ballots of bs whose
+   current preference is candidate i; [cont c] = hopeful or elected-with-transfer-pending. *)
+Theorem C06_tally_is_the_value_of_its_ballots_whole_run : forall A S (ZL : zlike A S) cfg,
+  cf_method cfg = MWigm -> exact A = false -> 0 <= cf_nballots cfg -> 0 <= cf_nseats cfg ->
+  forall r pr fuel s k, greg_rule r -> wf_profile pr ->
+  exec (@crashed A) fuel (count_cmd A cfg r) (init_state A cfg pr) = Some (s, k) -> k <> Abort ->
+  NoDup (map (@cid A) (cands s)) /\
+  Forall (wfb A S ZL) (ballots s) /\
+  (forall c, In c (cands s) ->
+     raw ZL (cvote c) = stand A S ZL (ballots s) (cid c) \/ (cont A c = false /\ stand A S ZL (ballots s) (cid c) = 0)) /\
+  (forall c, In c (cands s) -> is_pending A c = true -> raw ZL (quota s) <= raw ZL (cvote c)).
+Proof. exact count_tally_is_standing. Qed.
+Print Assumptions C06_tally_is_the_value_of_its_ballots_whole_run.
